@@ -419,6 +419,7 @@ fn reg_base() -> crate::registry::RegWorld {
     has_locker: false,
     lock_manifests: vec![],
     lock_remote: vec![],
+    seeds: vec![],
   }
 }
 
